@@ -81,7 +81,7 @@ def main() -> int:
                         broken.append({"what": f"theorem {name} depends on axioms {bad_ax}"})
             except BuildError as e:
                 broken.append({"what": f"re-check of {prop_file.name} failed", "log": e.log})
-            hits = common.hygiene_scan()
+            hits = common.hygiene_scan(common.dep_closure(list(plugin.COQ_TARGETS)))
             if hits:
                 broken.append({"what": "forbidden vernacular in the development", "hits": hits})
             obligations, discharged = common.count_obligations(proof_files)
